@@ -204,6 +204,17 @@ Theorem C17_lame_rubber :
 Proof. exact lame_rubber_ok. Qed.
 Print Assumptions C17_lame_rubber.
 
+(* module wrappers (traced): forward() hands every constructor option (mode, sigma, spacing, stride, reduction, p, q,
+   elastic constants) to the functional form -- GradLoss incl. q = 0 and q = None -> 1/p, Bending, Curvature, Diffusion,
+   Divergence, TotalVariation, BSplineBending.
+   PARTIAL: Elasticity is excluded: its __init__ does not forward `stride` (reported from the implementation side as
+   C17:Elasticity.forward:option-not-passed); the full statement is `forallb (fun p => snd p =? "ok") table = true`. *)
+Theorem C17_module_options_partial :
+  forallb row_ok gen_flow_module_options = true /\ (13 <= List.length gen_flow_module_options)%nat /\
+  existsb (fun p => String.eqb (fst p) "GradLoss(p=4, q=0)" && String.eqb (snd p) "ok") gen_flow_module_options = true.
+Proof. exact flow_module_options_partial. Qed.
+Print Assumptions C17_module_options_partial.
+
 (* ================= 5. inverse consistency: units ====================================================== *)
 (* an exact inverse pair (zero error) reports zero in every unit; denormalize_flow applies (n-1)/2 with
    align_corners and n/2 without *)
